@@ -174,6 +174,10 @@ pub enum Claim {
 }
 
 pub fn claim(saved: &Ty, loaded: &Ty, ver: u32) -> Claim {
+    if saved.has_opaque() || loaded.has_opaque() {
+        // no model of the bytes: only "the very same type loads its own data" is claimed
+        return if saved.rust() == loaded.rust() { Claim::MustAccept } else { Claim::NoClaim };
+    }
     let (gs, gl) = (grammar(saved, ver), grammar(loaded, ver));
     if gs == gl {
         return Claim::MustAccept;
